@@ -21,26 +21,27 @@ import (
 
 // Case is one child execution: one logger configuration, one workload.
 type Case struct {
-	Idx     int      `json:"idx"`
-	Ctor    string   `json:"ctor"`
-	Rep     int      `json:"rep"`
-	P       int      `json:"producers"`
-	N       int      `json:"messages_per_producer"`
-	Seed    int64    `json:"seed"`
-	Members []string `json:"members,omitempty"` // composite: initial recording members
-	Appends []string `json:"appends,omitempty"` // composite: members appended while producers run
-	Ring    int      `json:"ring,omitempty"`
-	Slow    bool     `json:"slow_sink,omitempty"`
-	PollUS  int      `json:"poll_us,omitempty"`
-	SetSrc  bool     `json:"set_sources"`
-	PaceUS  int      `json:"pace_us,omitempty"` // producers pause this long every 16 messages (lets a ring-buffered logger keep up)
-	Procs   int      `json:"gomaxprocs"`
-	Dir     string   `json:"dir"`
+	Idx       int      `json:"idx"`
+	Ctor      string   `json:"ctor"`
+	Rep       int      `json:"rep"`
+	P         int      `json:"producers"`
+	N         int      `json:"messages_per_producer"`
+	Seed      int64    `json:"seed"`
+	Members   []string `json:"members,omitempty"` // composite: initial recording members
+	Appends   []string `json:"appends,omitempty"` // composite: members appended while producers run
+	Ring      int      `json:"ring,omitempty"`
+	Slow      bool     `json:"slow_sink,omitempty"`
+	PollUS    int      `json:"poll_us,omitempty"`
+	SetSrc    bool     `json:"set_sources"`
+	PaceUS    int      `json:"pace_us,omitempty"` // producers pause this long every PaceEvery messages (lets a ring-buffered logger nearly keep up: small, frequent drops)
+	PaceEvery int      `json:"pace_every,omitempty"`
+	Procs     int      `json:"gomaxprocs"`
+	Dir       string   `json:"dir"`
 }
 
 func (c Case) canonical() string {
-	return fmt.Sprintf("%s rep=%d P=%d N=%d members=%v appends=%v ring=%d slow=%v poll=%dus pace=%dus setsrc=%v procs=%d",
-		c.Ctor, c.Rep, c.P, c.N, c.Members, c.Appends, c.Ring, c.Slow, c.PollUS, c.PaceUS, c.SetSrc, c.Procs)
+	return fmt.Sprintf("%s rep=%d P=%d N=%d members=%v appends=%v ring=%d slow=%v poll=%dus pace=%dus/%d setsrc=%v procs=%d",
+		c.Ctor, c.Rep, c.P, c.N, c.Members, c.Appends, c.Ring, c.Slow, c.PollUS, c.PaceUS, c.PaceEvery, c.SetSrc, c.Procs)
 }
 
 // group is a set of sinks which together must hold every message once (a logger's own sink(s), or one
@@ -170,6 +171,19 @@ func (c Case) build() (*built, error) {
 		s := &recSink{}
 		b.lg, err = logs.NewJSONLogger(s, "lsrc", "src")
 		b.groups = one("json", s)
+	case "json-multiwriter":
+		// JSON logger over the library's compound writer: both writers must receive every message
+		s1, s2 := &recSink{}, &recSink{}
+		var w *logs.MultipleWritersWithSource
+		w, err = logs.NewMultipleWritersWithSource(s1, s2)
+		if err != nil {
+			break
+		}
+		b.lg, err = logs.NewJSONLogger(w, "lsrc", "src")
+		b.groups = []*group{
+			{name: "writer0", sinks: []sinkReader{recReader("writer0", s1)}, appendBit: -1},
+			{name: "writer1", sinks: []sinkReader{recReader("writer1", s2)}, appendBit: -1},
+		}
 	case "json-std":
 		b.lg, err = logs.NewJSONLogger(&logs.StdWriter{}, "lsrc", "src")
 		b.groups = []*group{c.stdGroup()}
